@@ -43,6 +43,7 @@ class Doc:
         self.ptype = {}          # param name -> type name
         self.features = set()
         self.dead_sub = None
+        self.cont_order = "as_is"
         self.root_abstract = True
 
 
@@ -357,6 +358,9 @@ def draw_doc(ch, tag="D"):
         doc.ambiguous_apid = 77
         doc.features.add("ambiguous")
     doc.unknown_apids = [300, 2046]
+    # order of the SequenceContainer elements inside ContainerSet: base and nested containers may be defined after the
+    # containers that refer to them (forward references)
+    doc.cont_order = ch.pick(("as_is", "reversed", "rotated"), "cont_order")
     # pad every leaf to a whole number of bytes (dynamic fields are always whole bytes) so that packets
     # built for a leaf are consumed exactly; wrong-length packets are then made on purpose, not by accident
     byname = {c["name"]: c for c in doc.containers}
@@ -515,6 +519,12 @@ def doc_tree(doc):
         if c["base"]:
             ch_.append(E("BaseContainer", {"containerRef": c["base"]}, [E("RestrictionCriteria", {}, [c["criteria"]])]))
         conts.append(E("SequenceContainer", a, ch_))
+    if doc.cont_order == "reversed":
+        conts = conts[::-1]
+        doc.features.add("forward_container_refs")
+    elif doc.cont_order == "rotated" and len(conts) > 1:
+        conts = conts[1:] + conts[:1]
+        doc.features.add("forward_container_refs")
     return E("SpaceSystem", {"name": doc.name}, [
         E("Header", {"date": "2026-01-01T00:00:00", "version": "1.0", "validationStatus": "Working"}, []),
         E("TelemetryMetaData", {}, [
